@@ -83,11 +83,31 @@ package reorgdetector
 //@   loop 0 invariant notifyCalls == 0 && headersCache != nil && rd != nil && rd.client != nil && rd.log != nil && hdrs != nil && lastFinalisedBlock != nil && lastFinalisedBlock.Number != nil
 
 // the tracked blocks reloaded at start-up (C06): assumed semantics (A5), text pinned
+// trkRows / trkN: the rows of tracked_block as the pinned SELECT returns them - grouped by subscriber, that is what
+// ORDER BY subscriber_id gives: a subscriber that occurred before occurs in the row just before (assumed at the library call, A5). The grouping loop itself is proved: every row ends up
+// in the list of its own subscriber, and the lists hold nothing that is not a row.
+//@ ghost var trkRows []*headerWithSubscriberID
+//@ ghost var trkN int
+//@ extern github.com/russross/meddler.QueryAll@reorgdetector.(*ReorgDetector).getTrackedBlocks (conn, dst, query, args)
+//@   requires typeIs(dst, *[]*headerWithSubscriberID) && cast(dst, *[]*headerWithSubscriberID) != nil
+//@   modifies *cast(dst, *[]*headerWithSubscriberID)
+//@   ensures result == nil ==> len(*cast(dst, *[]*headerWithSubscriberID)) == trkN && off(*cast(dst, *[]*headerWithSubscriberID)) == 0 && forall(k, 0, trkN, (*cast(dst, *[]*headerWithSubscriberID))[k] == trkRows[k] && trkRows[k] != nil)
+//@   ensures result == nil ==> forall(k, 1, trkN, forall(j, 0, k, trkRows[j].SubscriberID == trkRows[k].SubscriberID ==> trkRows[k - 1].SubscriberID == trkRows[k].SubscriberID))
+//@   ensures (result != nil && isErr(result, db.ErrNotFound)) ==> trkN == 0
 //@ func (rd *ReorgDetector) getTrackedBlocks
 //@   props C06
-//@   trusted
+//@   requires rd != nil
 //@   modifies nothing
 //@   sqltext "SELECT * FROM tracked_block ORDER BY subscriber_id;"
+//@   ensures[error-means-nothing] result1 != nil ==> result0 == nil
+//@   ensures[every-row-is-tracked-under-its-subscriber] result1 == nil ==> result0 != nil && forall(k, 0, trkN, has(result0, trkRows[k].SubscriberID) && result0[trkRows[k].SubscriberID] != nil && has(result0[trkRows[k].SubscriberID].headers, trkRows[k].Num))
+//@   loop 0 invariant trackedBlocks != nil && fresh(trackedBlocks) && 0 <= rangeindex + 1 && rangeindex + 1 <= trkN && len(headersWithID) == trkN && off(headersWithID) == 0 && forall(k, 0, trkN, headersWithID[k] == trkRows[k] && trkRows[k] != nil)
+//@   loop 0 invariant forall(k, 1, trkN, forall(j, 0, k, trkRows[j].SubscriberID == trkRows[k].SubscriberID ==> trkRows[k - 1].SubscriberID == trkRows[k].SubscriberID))
+//@   loop 0 invariant rangeindex >= 0 ==> currentID == trkRows[rangeindex].SubscriberID
+//@   loop 0 invariant rangeindex < 0 ==> currentID == trkRows[0].SubscriberID && len(currentHeaders) == 0
+//@   loop 0 invariant 0 <= len(currentHeaders) && len(currentHeaders) <= rangeindex + 1 && off(currentHeaders) == 0 && forall(k, rangeindex + 1 - len(currentHeaders), rangeindex + 1, currentHeaders[k - (rangeindex + 1 - len(currentHeaders))].Num == trkRows[k].Num && currentHeaders[k - (rangeindex + 1 - len(currentHeaders))].Hash == trkRows[k].Hash && trkRows[k].SubscriberID == currentID)
+//@   loop 0 invariant forall(k, 0, rangeindex + 1 - len(currentHeaders), trkRows[k].SubscriberID != currentID)
+//@   loop 0 invariant forall(k, 0, rangeindex + 1 - len(currentHeaders), has(trackedBlocks, trkRows[k].SubscriberID) && trackedBlocks[trkRows[k].SubscriberID] != nil && has(trackedBlocks[trkRows[k].SubscriberID].headers, trkRows[k].Num))
 
 // ---- subscribing (C06): the tracked blocks are the durable record of what a syncer has processed on a fork that may be
 // abandoned; at start-up they are reloaded (Start -> loadTrackedHeaders, which also re-creates the subscriptions) before
@@ -99,9 +119,11 @@ package reorgdetector
 //@   ensures[a-new-list] result != nil && fresh(result) && result.headers != nil && fresh(result.headers)
 //@   ensures[empty-when-given-nothing] len(headers) == 0 ==> forall(n, int, !has(result.headers, n))
 //@   ensures[holds-exactly-the-given-block-numbers] forall(n, int, has(result.headers, n) == exists(k, 0, len(headers), headers[k].Num == n))
+//@   ensures[every-given-header-is-held] forall(k, 0, len(headers), has(result.headers, headers[k].Num))
 //@   ensures[each-header-under-its-own-number] forall(k, 0, len(headers), forall(j, k + 1, len(headers), headers[j].Num != headers[k].Num) ==> result.headers[headers[k].Num] == headers[k])
 //@   loop 0 invariant headersMap != nil && fresh(headersMap) && (len(headers) == 0 ==> forall(n, int, !has(headersMap, n))) && 0 <= rangeindex + 1 && rangeindex + 1 <= len(headers)
 //@   loop 0 invariant forall(n, int, has(headersMap, n) == exists(k, 0, rangeindex + 1, headers[k].Num == n))
+//@   loop 0 invariant forall(k, 0, rangeindex + 1, has(headersMap, headers[k].Num))
 //@   loop 0 invariant forall(k, 0, rangeindex + 1, forall(j, k + 1, rangeindex + 1, headers[j].Num != headers[k].Num) ==> headersMap[headers[k].Num] == headers[k])
 //@ func (rd *ReorgDetector) Subscribe
 //@   props C06
